@@ -673,6 +673,19 @@ func runLifeCase(c cfg, seed uint64, o lifeOpts, keys map[string]struct{}) (eval
 		}
 	}
 	// the request for shutdown may come while the above is still going on
+	var regLn net.Listener
+	var regPeers []net.Conn
+	var extraMu sync.Mutex
+	defer func() {
+		if regLn != nil {
+			_ = regLn.Close()
+		}
+		extraMu.Lock()
+		for _, ac := range regPeers {
+			_ = ac.Close()
+		}
+		extraMu.Unlock()
+	}()
 	var backlogPeer net.Conn
 	defer func() {
 		if backlogPeer != nil {
@@ -708,6 +721,34 @@ func runLifeCase(c cfg, seed uint64, o lifeOpts, keys map[string]struct{}) (eval
 							res.Inconc("life %s: no connection available to request the shutdown through the low-priority queue", c)
 						}
 					}
+				}
+				break
+			}
+			if o.shutdownFrom == "OnOpen" && o.via == "register" {
+				// the connection whose OnOpen returns Shutdown is not accepted but brought in through Engine.Register:
+				// the action must count all the same
+				if ln, err := net.Listen("tcp", "127.0.0.1:0"); err == nil {
+					go func() {
+						for {
+							ac, err := ln.Accept()
+							if err != nil {
+								return
+							}
+							extraMu.Lock()
+							regPeers = append(regPeers, ac)
+							extraMu.Unlock()
+						}
+					}()
+					regLn = ln
+					for k := 0; k < 20 && !s.shutdownFired.Load(); k++ {
+						if ch, err := life.eng.Register(gnet.NewNetAddrContext(context.Background(), ln.Addr())); err == nil {
+							select {
+							case <-ch:
+							case <-time.After(2 * time.Second):
+							}
+						}
+					}
+					s.key(c.class() + "|shutdown-from-OnOpen-of-a-registered-connection")
 				}
 				break
 			}
@@ -1021,6 +1062,16 @@ func runLifeCase(c cfg, seed uint64, o lifeOpts, keys map[string]struct{}) (eval
 	}
 	for _, ec := range extra {
 		closePeer(ec)
+	}
+	if regLn != nil {
+		_ = regLn.Close()
+		time.Sleep(time.Millisecond)
+		extraMu.Lock()
+		for _, ac := range regPeers {
+			_ = ac.Close()
+		}
+		regPeers = nil
+		extraMu.Unlock()
 	}
 	// grace interval: nothing of this engine may run any more
 	for k := 0; k < 3; k++ {
